@@ -572,7 +572,7 @@ def main():
     tally = Tally()
     only = chk.args.only
     # replay files of earlier runs of this property are stale by definition
-    rd = os.path.join(VERIF, "replays")
+    rd = os.path.join(OUT_ROOT, "replays")
     if os.path.isdir(rd):
         for f in os.listdir(rd):
             if f.startswith("C10_"):
